@@ -84,6 +84,7 @@ class IOGen:
             c = R.random()
             if c < .12: return "((ㄱㅇㄱ ㄷㅂㅎㄴ ㄷㅈㅎㄴ) ㅎ)"            # throws instead of producing an action
             if c < .2: return R.choice(["(ㄱ ㅎ)", "(ㄱㅇㄱ ㅎ)", "(ㅂㄱㅎㄱ ㅎ)"])       # returns something that is not an action
+            if c < .3: return R.choice(["ㄷㅈ", "ㅈㄹ", "ㄱㅅ", "ㅁㅈ", "(ㄱ ㅁㄹㅎㄴ)", "(ㅈㅈㅎㄱ)", "((ㄱ ㄱㅅㅎㄴ) ㄱ ㅅㅈㅎㄷ)"])       # a bare built-in or a non-function callable as continuation: may fail the moment it is applied
             return f"({s.gen(d - 1, ctx + ['val'])} ㅎ)"
         f = fun()
         if R.random() < .6: return f"({m} {f} ㄱㄹㅎㄷ)"
@@ -280,6 +281,15 @@ def c13_once(r, seed, tier, model_ok):
         if ev[-1][0] == "ok" and ev[-1][1] > 1.05 * pred + 10: bad2.append(dict(program=f"{name}: {f(3)}", impl=f"events: {meas[name]}", model=f"linear in k (predicted {pred:.0f} at k={ks[-1]})", which=["linear"]))
     r.slice("sharing_families", sum(len(v) for v in meas.values()), 4 * 5, [fams["double-add"](3)], meas, "doubling / fan-out families: observer events linear in depth k (k up to 200)", bad2)
     if model_ok:
+        # the NUMBER of delayed expressions whose evaluation begins: implementation (observer: started with an empty cache) vs Count.trace_main of the
+        # model, about which evaluated_at_most_once / work_is_linear are theorems
+        sel = [(c, o) for c, o in zip(cases, out) if o[0] in ("ok", "err")][:N(tier, 1500, 20000)] + \
+              [(dict(text=f(k)), _once_one(dict(text=f(k), tlimit=20))) for f in fams.values() for k in (3, 10, 14, 40)]
+        mo = vlib.driver("driver", ["TC\t" + ",".join(str(ord(ch)) for ch in c["text"]) for c, _ in sel])
+        badc = [dict(program=c["text"], impl=f"{o[0]}: {o[2]} delayed expressions began evaluation", model=f"Count.trace_main: {m}", which=["evaluation-count"])
+                for (c, o), m in zip(sel, mo) if m != "SKIP" and not m.startswith("FUEL") and m != f"{o[0]} {o[2]}"]
+        r.slice("evaluation_counts_vs_model", len(sel), len({c["text"] for c, _ in sel}), [sel[0][0]["text"]], dict(compared=sum(1 for m in mo if m != "SKIP" and not m.startswith("FUEL")), skipped=sum(1 for m in mo if m == "SKIP" or m.startswith("FUEL"))),
+                "number of delayed expressions whose evaluation begins: counting observer on the implementation vs the instrumented specification semantics (Count.trace_main)", badc[:40])
         mc = [dict(text=f(k)) for f in fams.values() for k in (3, 10, 14)]
         a = impl_run(mc); b = model_run(mc); dist, bad3 = compare(mc, a, b)
         r.slice("sharing_families_vs_model", len(mc), len(mc), [mc[0]["text"]], dict(outcomes=dict(dist)), "the same families, full event trace vs the model", bad3)
